@@ -79,6 +79,14 @@ func report(ctx context.Context, target, arg string) error {
 		"verbose": mg.Verbose(), "debug": mg.Debug(), "gocmd": base64.StdEncoding.EncodeToString([]byte(mg.GoCmd())),
 		"stdin_len": len(data), "stdin_sha": hex.EncodeToString(sum[:]), "has_deadline": has, "remaining_ns": rem,
 	})
+	if ms, _ := strconv.Atoi(os.Getenv("VERIF_PROBE_WORK_MS")); ms > 0 {
+		// the target works for a while, well inside its timeout, and gives up when its context does
+		select {
+		case <-time.After(time.Duration(ms) * time.Millisecond):
+		case <-ctx.Done():
+			return ctx.Err()
+		}
+	}
 	fmt.Println("PROBE " + string(b))
 	return nil
 }
@@ -131,6 +139,7 @@ BOOL_FLAG = {True: ["-v", "-v=true", "-v=1", "--v", "-v=T"], False: ["-v=false",
 SIX = [b"MAGEFILE_VERBOSE", b"MAGEFILE_LIST", b"MAGEFILE_HELP", b"MAGEFILE_DEBUG", b"MAGEFILE_GOCMD", b"MAGEFILE_TIMEOUT"]
 VOLATILE = {b"PWD", b"OLDPWD", b"_", b"SHLVL"}
 BASE_KEEP = ("PATH", "HOME", "TMPDIR", "LANG", "GOFLAGS", "GOPROXY", "GOSUMDB", "GOTOOLCHAIN", "CGO_ENABLED", "GOPATH", "GOCACHE", "GOROOT", "GOMODCACHE")
+SLOW_T = 6 * 10**9      # the timeout of the slow-build runs
 DEADLINES = [90 * 10**9, 3600 * 10**9, 360000 * 10**9]
 T_SPELL = {90 * 10**9: ["90s", "1m30s", "90000ms"], 3600 * 10**9: ["1h", "3600s", "60m"], 360000 * 10**9: ["100h", "6000m"]}
 ENV_BOOL_POOL = [None, None, None, None, b"1", b"1", b"1", b"0", b"0", b"true", b"false", b"T", b"garbage", b"", b"TRUE", b"yes", b" 1", b"tRuE", b"F"]
@@ -318,6 +327,13 @@ def gen_cfg(rng, klass, layout, gowrap, quick):
     c = {"klass": klass, "layout": layout, "v": None, "debug": None, "l": None, "h": None, "t": None, "gocmd": None,
          "env": [], "dv": "none", "wv": "none", "stdin": "empty", "word": "probe", "off": None, "dd": False, "B": [], "twords": None}
     env = {}
+    if klass == "slowbuild":
+        # -t to mage with a build phase made slow (the go command sleeps before `go build`), a target that works well
+        # inside its timeout but outlives any clock the front end might have started before building
+        c.update(t="6s", gocmd="@GOSLOW@", stdin="text", seed=rng.getrandbits(32), v=rng.choice([None, "-v"]), slow=True)
+        env = {b"VERIF_GO_DELAY": b"15", b"VERIF_PROBE_WORK_MS": b"3000"}
+        c["env"] = [[hx(k), hx(v)] for k, v in env.items()]
+        return c
     if klass == "explicit-off":
         off = rng.choice(["list", "help", "t0", "tneg"])
         c["off"] = off
@@ -559,7 +575,7 @@ def observe(r, stdin_sent):
                  stdin_len=js["stdin_len"])
         if js["has_deadline"]:
             rem = js["remaining_ns"]       # measured inside the child right after its context was made
-            cand = [d for d in DEADLINES if d - 30 * 10**9 < rem <= d]
+            cand = [d for d in [SLOW_T] + DEADLINES if d - 30 * 10**9 < rem <= d]
             o["timeout"] = -1 if rem <= 0 else (cand[0] if cand else rem)
         else:
             o["timeout"] = 0
@@ -575,6 +591,7 @@ def observe(r, stdin_sent):
     return o
 
 
+GOSLOW = [None]     # path of a go command that delays `go build` by $VERIF_GO_DELAY seconds
 GOWRAP = [None]     # path of the alternative go command of this run (a configuration names it symbolically)
 
 
@@ -586,7 +603,7 @@ def cfg_env(cfg):
 def resolved(cfg):
     c = dict(cfg)
     if c.get("gocmd"):
-        c["gocmd"] = c["gocmd"].replace("@GOWRAP@", GOWRAP[0])
+        c["gocmd"] = c["gocmd"].replace("@GOWRAP@", GOWRAP[0]).replace("@GOSLOW@", GOSLOW[0])
     return c
 
 
@@ -1097,14 +1114,18 @@ def run(ctx):
         f.write("#!/bin/sh\nexec go \"$@\"\n")
     os.chmod(gowrap, 0o755)
     GOWRAP[0] = gowrap
+    GOSLOW[0] = os.path.join(os.path.realpath(ctx.tmp), "goslow")
+    with open(GOSLOW[0], "w") as f:
+        f.write("#!/bin/sh\ncase \"$1\" in build) sleep \"${VERIF_GO_DELAY:-0}\";; esac\nexec go \"$@\"\n")
+    os.chmod(GOSLOW[0], 0o755)
     HOST[0], HOST[1] = sh(["go", "env", "GOHOSTOS", "GOHOSTARCH"], env=goenv(), check=True)[1].split()
     gowrap = "@GOWRAP@"
     gocache = goenv().get("GOCACHE") or sh(["go", "env", "GOCACHE"], env=goenv())[1].strip()
     # configurations
     nproj = 12 if quick else 16
     layouts = (["plain", "mfdir", "plain", "both"] * 4)[:nproj]
-    counts = ({"matrix": 54, "dashdash": 20, "default": 10, "listhelp": 8, "explicit-off": 6, "echo": 12, "alt": 6} if quick else
-              {"matrix": 1500, "dashdash": 400, "default": 200, "listhelp": 120, "explicit-off": 40, "echo": 200, "alt": 40})
+    counts = ({"slowbuild": 1, "matrix": 54, "dashdash": 20, "default": 10, "listhelp": 8, "explicit-off": 6, "echo": 12, "alt": 6} if quick else
+              {"slowbuild": 4, "matrix": 1500, "dashdash": 400, "default": 200, "listhelp": 120, "explicit-off": 40, "echo": 200, "alt": 40})
     cfgs = []
     if ctx.replay and ctx.replay.get("case"):
         cfgs = [] if ctx.replay["case"].get("parser_words") is not None else [ctx.replay["case"]]
